@@ -1,5 +1,7 @@
 import Cinco.Drv.Wire
 import Cinco.TreeIO.Include
+import Cinco.Format.Xml
+import Cinco.Format.Yaml
 /-
   Line-protocol driver: one JSON object per line in, one per line out.
   Every reply is `{"ok": ...}` or `{"err": "..."}` (protocol error) — never a default.
@@ -12,6 +14,48 @@ partial def incSchemaOfJson (j : Json) : R Include.IncSchema := do
     | .arr #[k, s] => do pure (String.ofList (← strOfJson k), ← incSchemaOfJson s)
     | _ => throw "bad sub schema")
   pure (.mk incs subs)
+
+partial def elemToJson : Xml.Elem → Json
+  | .mk tag ty text ch => Json.mkObj [("tag", strToJson tag.toList),
+      ("type", match ty with | some t => strToJson t.toList | none => Json.null),
+      ("text", match text with | some t => strToJson t | none => Json.null),
+      ("children", Json.arr (ch.map elemToJson).toArray)]
+
+partial def elemOfJson (j : Json) : R Xml.Elem := do
+  let tag ← fChars j "tag"
+  let ty ← match fieldOpt j "type" with
+    | some t => do pure (some (String.ofList (← strOfJson t)))
+    | none => pure none
+  let text ← match fieldOpt j "text" with
+    | some t => do pure (some (← strOfJson t))
+    | none => pure none
+  let ch ← (← fArr j "children").mapM elemOfJson
+  pure (.mk (String.ofList tag) ty text ch)
+
+/-- float text conversion supplied by the harness (CPython's `str(float)` / `float(text)`) as finite tables -/
+def floatTextOfJson (j : Json) : R Xml.FloatText := do
+  let pr ← match fieldOpt j "fprint" with
+    | some (.arr a) => a.toList.mapM (fun p => match p with
+        | .arr #[f, t] => do pure (← fltOfJson f, ← strOfJson t)
+        | _ => throw "bad fprint entry")
+    | _ => pure []
+  let pa ← match fieldOpt j "fparse" with
+    | some (.arr a) => a.toList.mapM (fun p => match p with
+        | .arr #[t, .null] => do pure (← strOfJson t, (none : Option Flt))
+        | .arr #[t, f] => do pure (← strOfJson t, some (← fltOfJson f))
+        | _ => throw "bad fparse entry")
+    | _ => pure []
+  pure { print := fun f => match pr.find? (fun e => e.1 == f) with
+                    | some e => e.2
+                    | none => "<<missing-float-text>>".toList,
+         parse := fun t => match pa.find? (fun e => e.1 == t) with
+                    | some e => e.2
+                    | none => none }
+
+def optStr (j : Json) (k : String) : R (Option String) :=
+  match fieldOpt j k with
+  | some v => do pure (some (String.ofList (← strOfJson v)))
+  | none => pure none
 
 def handle (cmd : String) (j : Json) : R Json := do
   match cmd with
@@ -35,6 +79,26 @@ def handle (cmd : String) (j : Json) : R Json := do
       | .ok t' => pure (Json.mkObj [("out", "ok"), ("tree", treeToJson (.dict t'))])
       | .error .unresolved => pure (Json.mkObj [("out", "unresolved")])
       | .error .notAMap => pure (Json.mkObj [("out", "not-a-map")])
+  | "xml.enc" => do
+      let ft ← floatTextOfJson j
+      let key := String.ofList (← fChars j "key")
+      pure (elemToJson (Xml.toElement ft key (← treeOfJson (← field j "tree"))))
+  | "xml.dec" => do
+      let ft ← floatTextOfJson j
+      let forced ← optStr j "forced"
+      pure (treeToJson (Xml.fromElement ft forced (← elemOfJson (← field j "elem"))))
+  | "xml.loads" => do
+      let ft ← floatTextOfJson j
+      let root := String.ofList (← fChars j "root")
+      match Xml.loadsElem ft root (← elemOfJson (← field j "elem")) with
+      | some t => pure (Json.mkObj [("out", "ok"), ("tree", treeToJson t)])
+      | none => pure (Json.mkObj [("out", "wrong-root")])
+  | "yaml.wrap" => do
+      let rk ← optStr j "root_key"
+      pure (treeToJson (.dict (Yaml.wrap rk (← kvsOfJson (← field j "tree")))))
+  | "yaml.unwrap" => do
+      let rk ← optStr j "root_key"
+      pure (treeToJson (Yaml.unwrap rk (← kvsOfJson (← field j "tree"))))
   | c => throw s!"unknown command {c}"
 
 def reply (line : String) : String :=
